@@ -76,11 +76,11 @@ def run(ctx):
     ctx.assume("C01.kernel.frame.*: the loop body is a pure step map, identical in every iteration (proved in C01; re-checked here)",
                "induction on the number of calls over the per-method obligations (paper argument)",
                "trace-domain equality does not distinguish the sign of zero")
-    _capacity_and_slices(ctx, py)
+    ctx.guard(_capacity_and_slices, ctx, py)
     for wa in (True, False):
         _methods(ctx, py, wa)
-    _histories(ctx, py)
-    _bitwise_standin(ctx, py)
+    ctx.guard(_histories, ctx, py)
+    ctx.guard(_bitwise_standin, ctx, py)
     # the kernel contract this lemma rests on
     from props import C01
     C01._frame(ctx, py)
@@ -88,141 +88,201 @@ def run(ctx):
 
 
 # -----------------------------------------------------------------------------------------------
-def _z3_of(node_, env):
-    import z3
-    if isinstance(node_, ast.Name):
-        return env[node_.id]
-    if isinstance(node_, ast.Constant) and isinstance(node_.value, int):
-        return z3.IntVal(node_.value)
-    if isinstance(node_, ast.BinOp):
-        a, b = _z3_of(node_.left, env), _z3_of(node_.right, env)
-        if isinstance(node_.op, ast.Add): return a + b
-        if isinstance(node_.op, ast.Sub): return a - b
-        if isinstance(node_.op, ast.Mult): return a * b
-    if isinstance(node_, ast.UnaryOp) and isinstance(node_.op, ast.USub):
-        return -_z3_of(node_.operand, env)
-    if isinstance(node_, ast.Call) and getattr(node_.func, "id", "") in ("max", "min") and len(node_.args) == 2:
-        a, b = _z3_of(node_.args[0], env), _z3_of(node_.args[1], env)
-        return z3.If(a >= b, a, b) if node_.func.id == "max" else z3.If(a <= b, a, b)
-    if isinstance(node_, ast.Compare) and len(node_.ops) == 1:
-        a, b = _z3_of(node_.left, env), _z3_of(node_.comparators[0], env)
-        op = node_.ops[0]
-        return {ast.Gt: a > b, ast.GtE: a >= b, ast.Lt: a < b, ast.LtE: a <= b, ast.Eq: a == b, ast.NotEq: a != b}[type(op)]
-    raise KeyError(ast.unparse(node_))
-
-
 def _capacity_and_slices(ctx, py):
-    """VCs over all integers generated from the AST of the real Integrator._integrate."""
+    """The REAL Integrator.integrate / _integrate (and whatever helper methods they call) executed on symbolic
+    integers: the three buffers, the stored trajectory and the chunk are stand-ins with z3 lengths; the kernel call,
+    every resize, every buffer slice, the concatenation and the returned slice are checked as they happen, for ALL
+    n_data >= 1, n_readings >= 0, size >= n_data.  Nothing is read off the source text."""
     import z3
+    from pvx.zdomain import explore_z, ZCtx, ZSym, zmin, zmax, Opaque, OPAQUE, Concretization
+    from pvx.npproxy import patched
+    S = py.strapdown
     t0 = time.time()
-    src = textwrap.dedent(inspect.getsource(py.strapdown.Integrator._integrate))
-    fn = ast.parse(src).body[0]
-    n_data, n_readings, size = z3.Ints("n_data n_readings size")
-    env = {}
-    notes = []
-    # which expression each of the three size names is bound to
-    # the three sizes are identified by WHAT they are bound to, not by their spelling
-    want = {"len(self.trajectory)": n_data, "len(increments)": n_readings, "len(self.lla)": size}
-    roles = {}
-    for st in fn.body:
-        if isinstance(st, ast.Assign) and isinstance(st.targets[0], ast.Name) and ast.unparse(st.value) in want:
-            env[st.targets[0].id] = want[ast.unparse(st.value)]
-            roles[ast.unparse(st.value)] = st.targets[0].id
-    ok_binds = len(roles) == 3
-    ctx.ob("C02.capacity.bindings", "c", ok_binds, "ast", 0.0, "rows so far, chunk length and buffer length are read as %s" % roles,
-           cex=None if ok_binds else dict(found=roles))
-    skip = set(roles.values())
-    size_after = size
-    resized = []
-    path = z3.BoolVal(True)
-    for st in fn.body:
-        if isinstance(st, ast.Assign) and isinstance(st.targets[0], ast.Name) and st.targets[0].id in skip:
-            continue
-        if isinstance(st, ast.Assign) and isinstance(st.targets[0], ast.Name):
-            try:
-                env[st.targets[0].id] = _z3_of(st.value, env)
-            except KeyError:
-                pass
-        elif isinstance(st, ast.If):
-            try:
-                cond = _z3_of(st.test, env)
-            except KeyError:
-                continue
-            inner = dict(env)
-            new_first_dims = []
-            for s2 in st.body:
-                if isinstance(s2, ast.Assign) and isinstance(s2.targets[0], ast.Name):
-                    inner[s2.targets[0].id] = _z3_of(s2.value, inner)
-                elif isinstance(s2, ast.Expr) and isinstance(s2.value, ast.Call) and getattr(s2.value.func, "attr", "") == "resize":
-                    tgt = ast.unparse(s2.value.func.value)
-                    shape = s2.value.args[0]
-                    first = shape.elts[0] if isinstance(shape, ast.Tuple) else shape
-                    new_first_dims.append((tgt, _z3_of(first, inner), ast.unparse(shape)))
-            if new_first_dims:
-                resized = new_first_dims
-                if st.orelse:
-                    notes.append("resize If has an else branch (not modelled)")
-                size_after_by = {t_: z3.If(cond, d, size) for t_, d, _ in new_first_dims}
-    bufs = ["self.lla", "self.velocity_n", "self.mat_nb"]
-    ok_res = sorted(t_ for t_, _, _ in resized) == sorted(bufs)
-    ctx.ob("C02.capacity.all_three_buffers_resized", "c", ok_res, "ast", 0.0, "resize targets: %s" % [(t_, s_) for t_, _, s_ in resized])
-    # kernel call: offset argument
-    call = next((n_ for n_ in ast.walk(fn) if isinstance(n_, ast.Call) and getattr(n_.func, "id", "") == "integrate"), None)
-    if call is None or not ok_res:
-        ctx.ob("C02.capacity.kernel_precondition", "c", False, "ast", 0.0, "kernel call / resize block not found in _integrate")
-        return
-    offset = _z3_of(call.args[6], env)
-    pre = z3.And(n_data >= 1, n_readings >= 0, size >= n_data)
-    bad = []
-    for t_ in bufs:
-        s = z3.Solver()
-        s.add(pre, z3.Not(z3.And(offset >= 0, offset + n_readings < size_after_by[t_])))
-        r_ = s.check()
-        if r_ != z3.unsat:
-            bad.append((t_, str(s.model()) if r_ == z3.sat else str(r_)))
-    cex = None
-    nat = None
-    if bad:
-        cex = dict(buffers=bad)
-        nat = _capacity_native(py)
-    ctx.ob("C02.capacity.kernel_precondition", "c", not bad, "z3", time.time() - t0,
-           "for all n_data>=1, n_readings>=0, size>=n_data: 0 <= offset and offset+n_readings < size' for the three buffers (offset = %s)" % ast.unparse(call.args[6])
-           if not bad else "kernel can run past the buffer: %s" % bad, cex=cex, native=nat)
-    # growth never shrinks below n_data (rows < n_data preserved by ndarray.resize when growing)
-    s = z3.Solver()
-    s.add(pre, z3.Or(*[size_after_by[t_] < size for t_ in bufs]))
-    ctx.ob("C02.capacity.resize_only_grows", "c", s.check() == z3.unsat, "z3", 0.0, "size' >= size: existing rows preserved")
+    tally = {}
+    failed = {}
+    notes = dict(paths=0, kernel_calls=0, resizes=0, reads=0, returns=0)
 
-    # slices: rows read back == rows written; returned slice
-    reads = [n_ for n_ in ast.walk(fn) if isinstance(n_, ast.Subscript) and isinstance(n_.slice, ast.Slice)
-             and ast.unparse(n_.value) in bufs]
-    bad = []
-    for rd in reads:
-        lo, hi = _z3_of(rd.slice.lower, env), _z3_of(rd.slice.upper, env)
-        s = z3.Solver()
-        s.add(pre, z3.Not(z3.And(lo == offset + 1, hi == offset + 1 + n_readings)))
-        if s.check() != z3.unsat:
-            bad.append(ast.unparse(rd))
-    ctx.ob("C02.slices.rows_read_are_rows_written", "c", not bad and len(reads) >= 3, "z3", 0.0,
-           "%d buffer slices == [offset+1, offset+1+n_readings)" % len(reads) if not bad else "mismatch: %s" % bad)
-    ret = [n_ for n_ in ast.walk(fn) if isinstance(n_, ast.Return) and isinstance(n_.value, ast.Subscript)
-           and "iloc" in ast.unparse(n_.value.value)]
-    ok_ret = False
-    detail = "return slice not found"
-    if ret:
-        sl = ret[0].value.slice
-        if isinstance(sl, ast.Slice) and sl.upper is None and sl.step is None:
-            start = _z3_of(sl.lower, env)
-            Lq = n_data + n_readings                   # length of the concatenated trajectory
-            # python slice semantics: negative start s -> max(L+s, 0)
-            eff = z3.If(start < 0, z3.If(Lq + start < 0, 0, Lq + start), z3.If(start > Lq, Lq, start))
-            s = z3.Solver()
-            s.add(pre, eff != n_data - 1)
-            ok_ret = s.check() == z3.unsat
-            detail = "iloc[%s:] of a table of n_data+n_readings rows starts at row n_data-1 for all n_data>=1, n_readings>=0" % ast.unparse(sl.lower)
-    ctx.ob("C02.slices.returned_rows", "c", ok_ret, "z3", 0.0, detail,
-           cex=None if ok_ret else dict(slice=ast.unparse(ret[0].value) if ret else None),
-           native=None if ok_ret else _returned_native(py))
+    def zi(x):
+        return x.v if isinstance(x, ZSym) else z3.IntVal(int(x))
+
+    def scen():
+        c = ZCtx()
+        n_data, n_read, size = c.new_int("n_data"), c.new_int("n_readings"), c.new_int("size")
+        c.assume(n_data >= 1, "at least the initial row is stored")
+        c.assume(n_read >= 0, "chunk of any length, including empty")
+        c.assume(size >= n_data, "representation invariant: buffers hold the stored rows")
+        state = dict(kernel=None)
+
+        def norm(k, L):
+            """python slice -> (lo, hi) z3 terms for a sequence of length L"""
+            if k.step is not None and not (isinstance(k.step, int) and k.step == 1):
+                raise Concretization("strided slice of a buffer")
+            def clamp(v, default):
+                if v is None:
+                    return default
+                v = zi(v)
+                return z3.If(v < 0, z3.If(L + v < 0, 0, L + v), z3.If(v > L, L, v))
+            return clamp(k.start, z3.IntVal(0)), clamp(k.stop, L)
+
+        class Rows(Opaque):
+            def __init__(self, buf, lo, hi):
+                object.__setattr__(self, "buf", buf)
+                object.__setattr__(self, "lo", lo)
+                object.__setattr__(self, "hi", hi)
+
+        class Buf(Opaque):
+            def __init__(self, name):
+                object.__setattr__(self, "name", name)
+                object.__setattr__(self, "n", size)
+
+            def resize(self, shape, refcheck=True):
+                first = shape[0] if isinstance(shape, (tuple, list)) else shape
+                notes["resizes"] += 1
+                c.prove("C02.capacity.resize_only_grows", zi(first) >= self.n, "%s.resize(%s)" % (self.name, first))
+                object.__setattr__(self, "n", zi(first))
+
+            def __getitem__(self, k):
+                if not isinstance(k, slice):
+                    raise Concretization("buffer indexed by a non-slice in integrate()")
+                lo, hi = norm(k, self.n)
+                notes["reads"] += 1
+                if state["kernel"] is None:
+                    c.prove("C02.slices.rows_read_are_rows_written", z3.BoolVal(False), "%s read before the kernel ran" % self.name)
+                else:
+                    off = state["kernel"]
+                    c.prove("C02.slices.rows_read_are_rows_written", z3.And(lo == off + 1, hi == off + 1 + n_read),
+                            "%s[%s:%s] == rows [offset+1, offset+1+n_readings)" % (self.name, k.start, k.stop))
+                return Rows(self.name, lo, hi)
+
+        class Traj(Opaque):
+            def __init__(self, n, parts):
+                object.__setattr__(self, "n", n)
+                object.__setattr__(self, "parts", parts)
+
+            @property
+            def iloc(self):
+                me = self
+
+                class _I:
+                    def __getitem__(_s, k):
+                        if not isinstance(k, slice):
+                            return OPAQUE
+                        lo, hi = norm(k, me.n)
+                        return Traj(hi - lo, ("slice", me, lo, hi))
+                return _I()
+
+        class Chunk(Opaque):
+            """the increments table: len n_readings"""
+            def __getitem__(self, k):
+                return OPAQUE
+            index = OPAQUE
+            dt = OPAQUE
+
+        class NewTable(Opaque):
+            def __init__(self, parts):
+                object.__setattr__(self, "parts", parts)
+
+        def zlen(x):
+            if isinstance(x, Buf):
+                return ZSym(x.n)
+            if isinstance(x, Traj):
+                return ZSym(x.n)
+            if isinstance(x, Chunk):
+                return ZSym(n_read)
+            return len(x)
+
+        bufs = dict(lla=Buf("lla"), velocity_n=Buf("velocity_n"), mat_nb=Buf("mat_nb"))
+        stored = Traj(n_data, ("stored",))
+
+        def kernel(dt, lla, vel, mat, theta, dv, offset, with_altitude):
+            notes["kernel_calls"] += 1
+            ok_args = lla is bufs["lla"] and vel is bufs["velocity_n"] and mat is bufs["mat_nb"]
+            off = zi(offset)
+            c.prove("C02.capacity.kernel_gets_the_three_buffers", z3.BoolVal(bool(ok_args)), "kernel(dt, self.lla, self.velocity_n, self.mat_nb, ...)")
+            c.prove("C02.capacity.kernel_starts_at_last_stored_row", off == n_data - 1, "offset == len(trajectory) - 1")
+            for b_ in bufs.values():
+                c.prove("C02.capacity.kernel_precondition", z3.And(off >= 0, off + n_read < b_.n),
+                        "0 <= offset and offset + n_readings < len(%s) at the kernel call" % b_.name)
+            state["kernel"] = off
+
+        class NpNS:
+            @staticmethod
+            def ascontiguousarray(x, *a, **k): return x
+            @staticmethod
+            def asarray(x, *a, **k): return x
+            @staticmethod
+            def hstack(parts): return NewTable(list(parts))
+            @staticmethod
+            def column_stack(parts): return NewTable(list(parts))
+
+        class PdNS:
+            Series = pd.Series
+
+            @staticmethod
+            def DataFrame(data, index=None, columns=None, **k):
+                ok = (isinstance(data, NewTable) and len(data.parts) == 3 and all(isinstance(p_, Rows) for p_ in data.parts)
+                      and [p_.buf for p_ in data.parts] == ["lla", "velocity_n", "mat_nb"])
+                c.prove("C02.slices.new_rows_are_lla_velocity_attitude", z3.BoolVal(bool(ok)), "DataFrame(hstack([lla rows, velocity rows, rph(mat rows)]))")
+                return Traj(n_read, ("new",))
+
+            @staticmethod
+            def concat(parts, **k):
+                parts = list(parts)
+                ok = len(parts) == 2 and parts[0] is stored and isinstance(parts[1], Traj) and parts[1].parts == ("new",)
+                c.prove("C02.slices.concat_appends_after_stored_rows", z3.BoolVal(bool(ok)), "concat([stored trajectory, new rows])")
+                return Traj(sum_n(parts), ("concat",))
+
+        def sum_n(parts):
+            tot = z3.IntVal(0)
+            for p_ in parts:
+                tot = tot + (p_.n if isinstance(p_, Traj) else 0)
+            return tot
+
+        class TransformNS:
+            @staticmethod
+            def mat_to_rph(rows):
+                return rows
+
+        pva = pd.Series(np.zeros(9), index=NAMES, name=0.0)
+        it = S.Integrator.__new__(S.Integrator)
+        it.__dict__.update(with_altitude=True, trajectory=stored, **bufs)
+        with patched((S, dict(len=zlen, max=zmax, min=zmin, np=NpNS, pd=PdNS, integrate=kernel, transform=TransformNS))):
+            res = it.integrate(Chunk())
+        notes["returns"] += 1
+        ok_ret = isinstance(res, Traj) and res.parts[0] == "slice" and res.parts[1].parts == ("concat",)
+        if ok_ret:
+            c.prove("C02.slices.returned_rows", z3.And(res.parts[2] == n_data - 1, res.parts[3] == n_data + n_read),
+                    "returned rows == [n_data-1, n_data+n_readings) of the concatenated trajectory")
+            c.prove("C02.slices.stored_trajectory_is_the_concatenation", z3.BoolVal(it.trajectory is res.parts[1]), "self.trajectory = concat(...)")
+        else:
+            c.prove("C02.slices.returned_rows", z3.BoolVal(False), "integrate() does not return a slice of the concatenated trajectory")
+        for (name, status, detail, cex) in c.obligations:
+            tally[name] = tally.get(name, 0) + 1
+            if status != "proved":
+                failed.setdefault(name, []).append((status, detail, cex))
+        return None
+    paths = explore_z(scen, max_paths=64)
+    notes["paths"] = len(paths)
+    ctx.paths += len(paths)
+    required = ["C02.capacity.kernel_gets_the_three_buffers", "C02.capacity.kernel_starts_at_last_stored_row", "C02.capacity.kernel_precondition",
+                "C02.capacity.resize_only_grows", "C02.slices.rows_read_are_rows_written", "C02.slices.new_rows_are_lla_velocity_attitude",
+                "C02.slices.concat_appends_after_stored_rows", "C02.slices.returned_rows", "C02.slices.stored_trajectory_is_the_concatenation"]
+    dt_ = time.time() - t0
+    for name in required:
+        bad = failed.get(name)
+        n = tally.get(name, 0)
+        if bad:
+            und = all(b[0] == "undecided" for b in bad)
+            native = None
+            if not und:
+                native = _capacity_native(py) if "capacity" in name else _returned_native(py)
+            ctx.ob(name, "c", None if und else False, "z3(real method on symbolic sizes)", dt_ / len(required),
+                   "%s | %s" % (bad[0][1], bad[0][2]), cex=dict(counter_model=bad[0][2], detail=bad[0][1]), native=native)
+        else:
+            ctx.ob(name, "c", n > 0, "z3(real method on symbolic sizes)", dt_ / len(required),
+                   "%d VCs on %d paths of the real Integrator.integrate (for all n_data>=1, n_readings>=0, size>=n_data; %d kernel calls, %d resizes, %d buffer reads)"
+                   % (n, notes["paths"], notes["kernel_calls"], notes["resizes"], notes["reads"]),
+                   cex=None if n > 0 else dict(reason="no VC of this kind was generated (vacuous)"))
 
 
 def _float_setup(py, n, dup=False):
